@@ -40,22 +40,17 @@ pub fn get_or_create_resource_node(
     match node {
         Some(node) => node,
         None => {
-            if RESOURCE_NODE_MAP.read().unwrap().len() >= DEFAULT_MAX_RESOURCE_AMOUNT {
+            // build the node before taking the write lock, then insert-or-get under one lock, so that
+            // two threads touching a new resource at the same time end up sharing a single node
+            let new_node = Arc::new(ResourceNode::new(res_name.clone(), *resource_type));
+            let mut res_map = RESOURCE_NODE_MAP.write().unwrap();
+            if res_map.len() >= DEFAULT_MAX_RESOURCE_AMOUNT {
                 logging::warn!(
                     "[get_or_create_resource_node] Resource amount exceeds the threshold {}",
                     DEFAULT_MAX_RESOURCE_AMOUNT
                 )
             }
-            RESOURCE_NODE_MAP.write().unwrap().insert(
-                res_name.clone(),
-                Arc::new(ResourceNode::new(res_name.clone(), *resource_type)),
-            );
-            RESOURCE_NODE_MAP
-                .read()
-                .unwrap()
-                .get(res_name)
-                .unwrap()
-                .clone()
+            res_map.entry(res_name.clone()).or_insert(new_node).clone()
         }
     }
 }
